@@ -233,3 +233,91 @@ def blocks_between(body, a, s):
                 back.add(p)
                 st.append(p)
     return fwd & back
+
+
+# ---------------------------------------------------------------------- exact byte sets of a branch condition on one byte variable
+def _eval(val, var, v, preds):
+    """value of symbolic `val` when the place `var` (repr) holds byte v; None if it depends on anything else"""
+    if repr(val) == var:
+        return v
+    if val.kind == "const":
+        return val.v
+    if val.kind == "place":
+        return None
+    if val.kind == "binop":
+        a = _eval(val.args[0], var, v, preds)
+        b = _eval(val.args[1], var, v, preds)
+        if a is None or b is None:
+            return None
+        op = val.v
+        return {"Eq": a == b, "Ne": a != b, "Lt": a < b, "Le": a <= b, "Gt": a > b, "Ge": a >= b, "BitAnd": a & b, "BitOr": a | b, "BitXor": a ^ b,
+                "Add": a + b, "Sub": a - b}.get(op)
+    if val.kind == "unop" and val.v == "Not":
+        a = _eval(val.args[0], var, v, preds)
+        return None if a is None else (not a)
+    if val.kind == "call" and val.v in preds and val.args:
+        a = _eval(val.args[0], var, v, preds)
+        return None if a is None else bool(preds[val.v] >> a & 1)
+    return None
+
+
+def byte_set_reaching(body, var, start, targets, preds, values=None):
+    """(must, may): byte values of `var` for which control from block `start` certainly / possibly reaches one of `targets`,
+    following switch terminators whose condition depends only on `var` (others are explored both ways)"""
+    must = may = 0
+    tset = set(targets)
+    if values is not None:
+        must, may = set(), set()
+    for v in (values if values is not None else range(256)):
+        seen = set()
+        st = [(start, True)]
+        reach_all = True
+        reach_any = False
+        leaves = 0
+        while st:
+            b, exact = st.pop()
+            if b in tset:
+                reach_any = True
+                leaves += 1
+                continue
+            if (b, exact) in seen:
+                continue
+            seen.add((b, exact))
+            t = body.term(b)
+            if t["k"] == "switch":
+                c = _eval(describe(body, t["op"]), var, v, preds)
+                if c is None:
+                    for x in set([tb for _, tb in t["targets"]] + [t["otherwise"]]):
+                        st.append((x, False))
+                    continue
+                c = int(c)
+                nxt = t["otherwise"]
+                for val, tb in t["targets"]:
+                    if int(val) == c:
+                        nxt = tb
+                st.append((nxt, exact))
+            else:
+                succ = body.succ(b)
+                if not succ:
+                    reach_all = False
+                    leaves += 1
+                # do not walk past the join: stop at blocks that leave the decision region (calls other than pure u8 predicates)
+                if t["k"] == "call":
+                    from vlib.mir import callee_name, strip_generics
+                    nm = strip_generics(callee_name(t) or "")
+                    if nm not in preds:
+                        reach_all = False
+                        leaves += 1
+                        continue
+                for x in succ:
+                    st.append((x, exact))
+        if reach_any:
+            if values is not None:
+                may.add(v)
+                if reach_all:
+                    must.add(v)
+            else:
+                may |= 1 << v
+                if reach_all:
+                    must |= 1 << v
+    return must, may
